@@ -1,25 +1,19 @@
 package procbuilder
 
-import "strconv"
+import (
+	"strconv"
+	"strings"
+)
 
 // C01, simulator side: one retired instruction from an arbitrary state. The HDL
 // side is built by the driver from the generated Verilog over the SAME solver
 // variables (ROM bits rom#i.j, pc, registers, RAM, inputs) and compared with
 // the values exported here.
 
-func zzWord(tag string, rsize int) interface{} {
-	switch rsize {
-	case 8:
-		return zzNondetU8(tag)
-	case 16:
-		return zzNondetU16(tag)
-	case 32:
-		return zzNondetU32(tag)
-	}
-	return zzNondetU64(tag)
-}
-
-func zzC01Step(rsize, r, n, mm, l, o int, ops string, opname string) {
+// hwopt: "" or "<opcode>:<reg>+<reg>;..." - the destination registers a program uses per opcode, for which
+// the hardware was generated with the onlydestregs optimisation; the instruction under check then is one the
+// program can contain (its destination register is in the recorded set).
+func zzC01Step(rsize, r, n, mm, l, o int, ops string, opname string, hwopt string) {
 	m := zzMachine(rsize, r, n, mm, l, o, ops)
 	k := zzOpIndex(m, opname)
 	nrom := 1 << uint(o)
@@ -51,6 +45,27 @@ func zzC01Step(rsize, r, n, mm, l, o int, ops string, opname string) {
 	// the instruction at pc is an instance of the opcode under check
 	id, _ := m.Conproc.Decode_opcode(m.Program.Slocs[vm.Pc])
 	zzAssume(id == k)
+	if hwopt != "" {
+		allowed := ""
+		for _, ent := range strings.Split(hwopt, ";") {
+			p := strings.SplitN(ent, ":", 2)
+			if len(p) == 2 && p[0] == opname {
+				allowed = "+" + p[1] + "+"
+			}
+		}
+		if allowed != "" {
+			w := m.Program.Slocs[vm.Pc]
+			ob := m.Opcodes_bits()
+			reg := get_id(w[ob : ob+r])
+			okreg := false
+			for i := 0; i < 1<<uint(r); i++ {
+				if strings.Contains(allowed, "+r"+strconv.Itoa(i)+"+") && reg == i {
+					okreg = true
+				}
+			}
+			zzAssume(okreg)
+		}
+	}
 	zzExport("opbits", m.Opcodes_bits())
 	_, err := vm.Step(nil)
 	zzAssert("sim-no-error", err == nil)
@@ -71,6 +86,6 @@ func zzDispatch(name string, args []string) {
 	atoi := func(s string) int { v, _ := strconv.Atoi(s); return v }
 	switch name {
 	case "zzC01Step":
-		zzC01Step(atoi(args[0]), atoi(args[1]), atoi(args[2]), atoi(args[3]), atoi(args[4]), atoi(args[5]), args[6], args[7])
+		zzC01Step(atoi(args[0]), atoi(args[1]), atoi(args[2]), atoi(args[3]), atoi(args[4]), atoi(args[5]), args[6], args[7], args[8])
 	}
 }
